@@ -270,11 +270,15 @@ def inlineMarkup (sty : Styles) (attrs : Attrs) (text : Str) : Str :=
         (if style.superscript then [[94]] else []) ++ (if style.subscript then [[44, 44]] else [])
       mark.flatten ++ text ++ mark.reverse.flatten
 
+/-- the text of a paragraph after `strip()` (unless code) and the blank line between two consecutive text:p -/
+def paraText (pp : ParaProps) (q : Str) (st : MSt) (markup : Str) : Str :=
+  let text := if !pp.code then pyStrip markup else markup
+  if q = tP && st.last = some tP then [10] ++ text else text
+
 /-- paragraphToString(paragraph), given inline_markup(paragraph) -/
 def paraPost (sty : Styles) (q : Str) (attrs : Attrs) (markup : Str) (st : MSt) : M (Str × MSt) :=
   let pp := (sty.para.lookup (getAttr attrs kStyleName)).getD {}
-  let text := if !pp.code then pyStrip markup else markup
-  let text := if q = tP && st.last = some tP then [10] ++ text else text
+  let text := paraText pp q st markup
   let st := { st with last := some q }
   if pp.title then .ok (sTitleOpen ++ text ++ sTitleClose, { st with hasTitle := true })
   else
